@@ -4,7 +4,7 @@ import BoxoModel.C30.Lemmas
 
 Property theorems only (helper lemmas are in `BoxoModel/C30/Lemmas.lean`).
 `serve f r` is the model of the whole GET/HEAD path for `/ipfs/<cid of f>` AFTER the two `fix:`
-commits of branch verif/gw (`serveWith false` is the tree before them).  Every statement quantifies
+commits of branch verif/gw and the HEAD fix of verif/gw4 (`serveWith false false` is the tree before them).  Every statement quantifies
 over every file `f` (any content, ETag strings and mtime) and every request `r` (any byte strings as
 Range / If-Range / If-None-Match / If-Match values, any parse result of the three date headers,
 GET or HEAD, sniffed or known content type).
@@ -139,7 +139,7 @@ theorem c30_206_first_satisfiable (f : File) (r : Req) (a b s : Int)
       (∀ q ∈ pre, lex q = .skip ∨ Beyond (f.content.length : Int) (lex q)) ∧
       rfcResolve (f.content.length : Int) (lex p) = some (a, b) := by
   have hsz : (0 : Int) ≤ f.content.length := Int.natCast_nonneg _
-  rcases serve_cases f r with ⟨_, h3⟩ | ⟨_, _, _, h4⟩ | ⟨_, _, hpl⟩
+  rcases serve_cases f r with ⟨_, h3⟩ | ⟨_, _, h4⟩ | ⟨_, _, hpl⟩
   · rw [h3] at h; simp at h
   · rw [h4] at h; simp at h
   · rcases hpl with ⟨resp, hp, hs⟩ | ⟨st, cr, start, n, hp, hst, hcr, _⟩
@@ -205,6 +205,36 @@ theorem c30_206_first_satisfiable (f : File) (r : Req) (a b s : Int)
           rw [hl, lOf_badEnd ok] at h2
           by_cases h0 : i ≥ (f.content.length : Int) <;> simp [h0] at h2
 
+/-- **Zero-length 206, characterised.** The only way to get a 206 whose Content-Range has `first = last + 1`
+(Content-Length 0, empty body: `bytes 36-35/36`, or `bytes 0--1/0` on an empty file — inherited from net/http) is
+a suffix range-spec `-n` with `n = 0` or an empty file; every other 206 has `first ≤ last` and a non-empty body. -/
+theorem c30_zero_length_206 (f : File) (r : Req) (a b s : Int)
+    (h : (serve f r).status = 206) (hc : (serve f r).contentRange = .range a b s) (hz : a = b + 1) :
+    ∃ p ∈ pieces r.range, ∃ n, lex p = .suffix n ∧ (n = 0 ∨ f.content.length = 0) := by
+  obtain ⟨_, _, pre, p, post, hp, _, hres⟩ := c30_206_first_satisfiable f r a b s h hc
+  have ok := lex_ok p
+  refine ⟨p, by rw [hp]; simp, ?_⟩
+  cases hl : lex p with
+  | skip => simp [hl, rfcResolve] at hres
+  | bad => simp [hl, rfcResolve] at hres
+  | badEnd i => simp [hl, rfcResolve] at hres
+  | suffix n =>
+    simp only [hl, LexOK] at ok
+    simp only [hl, rfcResolve, Option.some.injEq, Prod.mk.injEq] at hres
+    refine ⟨n, rfl, ?_⟩
+    have : (0 : Int) ≤ f.content.length := Int.natCast_nonneg _
+    omega
+  | «open» i =>
+    simp only [hl, rfcResolve] at hres
+    split at hres
+    · simp at hres; omega
+    · simp at hres
+  | closed i j =>
+    simp only [hl, rfcResolve] at hres
+    split at hres
+    · simp at hres; omega
+    · simp at hres
+
 /-- **From header text to bytes (single closed range).** `GET` with only `Range: bytes=a-b` (decimal, `a ≤ b`,
 `a` inside the file): 206, `Content-Range: bytes a-e/size` with `e = min b (size-1)`, Content-Length `e-a+1`,
 and the body is exactly the bytes `a..e` of the file. -/
@@ -216,7 +246,7 @@ theorem c30_single_range (f : File) (a b : Nat) (k : Bool) (hab : a ≤ b) (hb :
     (serve f (rangeOnly a b k)).body = slice f.content a (min (b : Int) (f.content.length - 1)) := by
   obtain ⟨hplan, hwl⟩ := plan_closedRange f a b k hab hb ha
   have he : early304 f (rangeOnly a b k) = false := by simp [early304, rangeOnly]
-  rcases serve_cases f (rangeOnly a b k) with ⟨he', _⟩ | ⟨_, _, hw, _⟩ | ⟨_, _, hpl⟩
+  rcases serve_cases f (rangeOnly a b k) with ⟨he', _⟩ | ⟨_, hw, _⟩ | ⟨_, _, hpl⟩
   · rw [he] at he'; simp at he'
   · simp only [rangeOnly] at hw; rw [hwl] at hw; simp at hw
   · rcases hpl with ⟨resp, hp, _⟩ | ⟨st, cr, start, n, hp, hst, hcr, hcl⟩
@@ -232,20 +262,18 @@ theorem c30_single_range (f : File) (a b : Nat) (k : Bool) (hab : a ≤ b) (hb :
       exact (hbody rfl).1
 
 
-/-- **416 only when no requested range overlaps the file.** A 416 answer means: a Range header was
-present and honoured, the file is not empty, every non-empty piece of it is a range-spec whose
-first-byte-pos is at or beyond the end of the file and there is at least one such piece (then the
-answer carries `Content-Range: bytes */size`) — or, for HEAD only, the Range header is malformed
-(net/http heritage; GET answers 400 for those). -/
+/-- **416 only when no requested range overlaps the file.** A 416 answer (GET or HEAD) means: a Range header
+was present, syntactically valid and honoured, the file is not empty, every non-empty piece of it is a
+range-spec whose first-byte-pos is at or beyond the end of the file and there is at least one such piece;
+the answer carries `Content-Range: bytes */size`. -/
 theorem c30_416_only_if (f : File) (r : Req) (h : (serve f r).status = 416) :
-    r.range ≠ [] ∧ checkPreconditions f r = .go r.range ∧
-    (((0 : Int) < f.content.length ∧
-        (∀ p ∈ pieces r.range, lex p = .skip ∨ Beyond (f.content.length : Int) (lex p)) ∧
-        (∃ p ∈ pieces r.range, Beyond (f.content.length : Int) (lex p)) ∧
-        (serve f r).contentRange = .unsat f.content.length) ∨
-     (r.head = true ∧ parseRange r.range (f.content.length : Int) = .invalid)) := by
+    r.range ≠ [] ∧ checkPreconditions f r = .go r.range ∧ (∃ ws, parseRangeWL r.range = some ws) ∧
+    (0 : Int) < f.content.length ∧
+    (∀ p ∈ pieces r.range, lex p = .skip ∨ Beyond (f.content.length : Int) (lex p)) ∧
+    (∃ p ∈ pieces r.range, Beyond (f.content.length : Int) (lex p)) ∧
+    (serve f r).contentRange = .unsat f.content.length := by
   have hsz : (0 : Int) ≤ f.content.length := Int.natCast_nonneg _
-  rcases serve_cases f r with ⟨_, h3⟩ | ⟨_, _, _, h4⟩ | ⟨_, hm, hpl⟩
+  rcases serve_cases f r with ⟨_, h3⟩ | ⟨_, _, h4⟩ | ⟨_, hm, hpl⟩
   · rw [h3] at h; simp at h
   · rw [h4] at h; simp at h
   · rcases hpl with ⟨resp, hp, hs⟩ | ⟨st, cr, start, n, hp, hst, _, _⟩
@@ -258,26 +286,23 @@ theorem c30_416_only_if (f : File) (r : Req) (h : (serve f r).status = 416) :
       subst hhdr
       have hne : r.range ≠ [] := by
         intro he; rw [he, parseRange_nil] at hcase; simp at hcase
-      refine ⟨hne, hpre, ?_⟩
+      refine ⟨hne, hpre, hm, ?_⟩
       rcases hcase with ⟨hno, hz, hcr⟩ | ⟨hinv, _⟩
-      · left
-        obtain ⟨_, _, h1, h2⟩ := parseRange_noOverlap_iff.mp hno
+      · obtain ⟨_, _, h1, h2⟩ := parseRange_noOverlap_iff.mp hno
         exact ⟨by omega, h1, h2, by rw [hs]; exact hcr⟩
-      · right
-        rcases hm with hh | ⟨ws, hw⟩
-        · exact ⟨hh, hinv⟩
-        · exact absurd hinv (parseRange_valid_of_WL _ hw)
+      · obtain ⟨ws, hw⟩ := hm
+        exact absurd hinv (parseRange_valid_of_WL _ hw)
     · rcases plan_cases f r with ⟨resp', hp', _, _⟩ | hp' | ⟨ra, hdr, rs, hp', _, _, _⟩
       · rw [hp] at hp'; simp at hp'
       · rw [hp] at hp'; simp at hp'; rw [hst, hp'.1] at h; simp at h
       · rw [hp] at hp'; simp at hp'; rw [hst, hp'.1] at h; simp at h
 
 /-- **…and then it is 416.** Without conditional headers: if the Range header is accepted by the
-GET-side parser (or the request is HEAD), the file is not empty and no requested range overlaps it,
+length-less parser (the syntax check of GET and HEAD), the file is not empty and no requested range overlaps it,
 the answer is 416 with `Content-Range: bytes */size`. -/
 theorem c30_416_if (f : File) (r : Req) (h1 : r.ifRange = []) (h2 : r.ifNoneMatch = []) (h3 : r.ifMatch = [])
     (h4 : r.iusT = none) (h5 : r.imsT = none)
-    (hm : r.head = true ∨ ∃ ws, parseRangeWL r.range = some ws)
+    (hm : ∃ ws, parseRangeWL r.range = some ws)
     (hne : r.range ≠ []) (hp : hasPrefix r.range bytesPrefix = true) (hsz : (0 : Int) < f.content.length)
     (hall : ∀ p ∈ pieces r.range, lex p = .skip ∨ Beyond (f.content.length : Int) (lex p))
     (hex : ∃ p ∈ pieces r.range, Beyond (f.content.length : Int) (lex p)) :
@@ -291,44 +316,42 @@ theorem c30_416_if (f : File) (r : Req) (h1 : r.ifRange = []) (h2 : r.ifNoneMatc
     have : ((f.content.length : Int) == 0) = false := by rw [beq_eq_false_iff_ne]; omega
     simp [this]
   have he : early304 f r = false := by simp [early304, h2]
-  rcases serve_cases f r with ⟨he', _⟩ | ⟨_, hh, hw, _⟩ | ⟨_, _, hpl⟩
+  rcases serve_cases f r with ⟨he', _⟩ | ⟨_, hw, _⟩ | ⟨_, _, hpl⟩
   · rw [he] at he'; simp at he'
-  · rcases hm with hh' | ⟨ws, hw'⟩
-    · rw [hh] at hh'; simp at hh'
-    · rw [hw] at hw'; simp at hw'
+  · obtain ⟨ws, hw'⟩ := hm
+    rw [hw] at hw'; simp at hw'
   · rcases hpl with ⟨resp, hp', hs⟩ | ⟨st, cr, start, n, hp', _⟩
     · rw [hplan] at hp'; simp at hp'; subst hp'; rw [hs]; simp
     · rw [hplan] at hp'; simp at hp'
 
-/-- **HEAD answers like GET.** Unless GET rejects the Range syntax with 400, HEAD returns the same
-status and headers as GET, and no body. -/
-theorem c30_head_same (f : File) (r : Req) (hh : r.head = true)
-    (h400 : (serve f { r with head := false }).status ≠ 400) :
+/-- **HEAD answers like GET**: same status and headers, no body — for every request. -/
+theorem c30_head_same (f : File) (r : Req) (hh : r.head = true) :
     serve f r = { serve f { r with head := false } with body := [] } := by
   have e : early304 f { r with head := false } = early304 f r := rfl
-  rcases serve_cases f { r with head := false } with ⟨he, _⟩ | ⟨_, _, _, h4⟩ | ⟨he, hm, _⟩
+  rcases serve_cases f { r with head := false } with ⟨he, _⟩ | ⟨he, hw, h4⟩ | ⟨he, ⟨ws, hw⟩, _⟩
   · rw [e] at he
     unfold early304 at he
     unfold serve serveWith
     simp only [he, ↓reduceIte]
-  · rw [h4] at h400; simp at h400
-  · rcases hm with h | ⟨ws, hw⟩
-    · simp at h
-    · rw [e] at he
-      obtain ⟨sk, pos0, _, hs⟩ := serve_get f { r with head := false } (by rw [e]; exact he) rfl ws hw
-      rw [hs, planContent_head]
-      unfold early304 at he
-      unfold serve serveWith
-      simp only [he, hh, Bool.false_eq_true, ↓reduceIte]
-      cases hp : planContent f r with
-      | send st cr start n => rfl
-      | final resp =>
-        simp only []
-        rcases plan_cases f r with ⟨resp', hp', hb, _⟩ | hp' | ⟨ra, hdr, rs, hp', _⟩
-        · rw [hp] at hp'; simp at hp'; subst hp'
-          cases resp; simp at hb; subst hb; rfl
-        · rw [hp] at hp'; simp at hp'
-        · rw [hp] at hp'; simp at hp'
+  · rw [h4]
+    rw [e] at he
+    unfold early304 at he
+    unfold serve serveWith
+    have hw' : parseRangeWL r.range = none := hw
+    simp [he, hh, hw']
+  · rw [e] at he
+    obtain ⟨sk, pos0, _, hs⟩ := serve_get f { r with head := false } (by rw [e]; exact he) rfl ws hw
+    rw [hs, planContent_head]
+    rw [serve_head f r he hh ws hw]
+    cases hp : planContent f r with
+    | send st cr start n => rfl
+    | final resp =>
+      simp only []
+      rcases plan_cases f r with ⟨resp', hp', hb, _⟩ | hp' | ⟨ra, hdr, rs, hp', _⟩
+      · rw [hp] at hp'; simp at hp'; subst hp'
+        cases resp; simp at hb; subst hb; rfl
+      · rw [hp] at hp'; simp at hp'
+      · rw [hp] at hp'; simp at hp'
 
 /-- **A failing If-Range gives the whole file** (GET): status 200, full Content-Length and the whole
 content as body — divergence (a) of the unrepaired tree. -/
@@ -340,7 +363,7 @@ theorem c30_if_range_failed_whole_file (f : File) (r : Req) (hh : r.head = false
   have hplan : planContent f r = .send 200 .none 0 f.content.length := by
     unfold planContent
     simp [hpre, parseRange_nil, sumRangesSize]
-  rcases serve_cases f r with ⟨he', _⟩ | ⟨_, _, hw', _⟩ | ⟨_, _, hpl⟩
+  rcases serve_cases f r with ⟨he', _⟩ | ⟨_, hw', _⟩ | ⟨_, _, hpl⟩
   · rw [he] at he'; simp at he'
   · rw [hw] at hw'; simp at hw'
   · rcases hpl with ⟨resp, hp', _⟩ | ⟨st, cr, start, n, hp', hst, _, hcl⟩
@@ -375,22 +398,22 @@ def reqD : Req := get (bytesEq [53, 45, 49, 49, 44, 48, 45, 49, 49]) []
 
 /-- (a) failing If-Range: 200 with the full Content-Length but the body starts at byte 2 -/
 theorem c30_unfixed_counterexample_a :
-    (serveWith false f0 reqA).status = 200 ∧ (serveWith false f0 reqA).contentLength = some 12 ∧
-      (serveWith false f0 reqA).body = f0.content.drop 2 := by decide +kernel
+    (serveWith false false f0 reqA).status = 200 ∧ (serveWith false false f0 reqA).contentLength = some 12 ∧
+      (serveWith false false f0 reqA).body = f0.content.drop 2 := by decide +kernel
 
 /-- (b) first range beyond the end is skipped by parseRange but not by the pre-seek:
 `Content-Range: bytes 0-3/12`, Content-Length 4, empty body -/
 theorem c30_unfixed_counterexample_b :
-    (serveWith false f0 reqB).status = 206 ∧ (serveWith false f0 reqB).contentRange = .range 0 3 12 ∧
-      (serveWith false f0 reqB).contentLength = some 4 ∧ (serveWith false f0 reqB).body = [] := by decide +kernel
+    (serveWith false false f0 reqB).status = 206 ∧ (serveWith false false f0 reqB).contentRange = .range 0 3 12 ∧
+      (serveWith false false f0 reqB).contentLength = some 4 ∧ (serveWith false false f0 reqB).body = [] := by decide +kernel
 
 /-- (c) suffix longer than the file: the backend fails (500) instead of serving the whole file -/
-theorem c30_unfixed_counterexample_c : (serveWith false f0 reqC).status = 500 := by decide +kernel
+theorem c30_unfixed_counterexample_c : (serveWith false false f0 reqC).status = 500 := by decide +kernel
 
 /-- (d) ranges whose sum exceeds the size are ignored: 200, Content-Length 12, body starts at byte 5 -/
 theorem c30_unfixed_counterexample_d :
-    (serveWith false f0 reqD).status = 200 ∧ (serveWith false f0 reqD).contentLength = some 12 ∧
-      (serveWith false f0 reqD).body = f0.content.drop 5 := by decide +kernel
+    (serveWith false false f0 reqD).status = 200 ∧ (serveWith false false f0 reqD).contentLength = some 12 ∧
+      (serveWith false false f0 reqD).body = f0.content.drop 5 := by decide +kernel
 
 /-! the same requests against the repaired code -/
 /-- `c30_single_range` is not vacuous: `bytes=2-5` on the 12-byte file -/
@@ -404,9 +427,14 @@ example : (serve f0 reqD).status = 200 ∧ (serve f0 reqD).body = f0.content := 
 /-- `bytes=12-` on 12 bytes: 416 with `bytes */12`; the hypotheses of `c30_416_if` are satisfiable -/
 example : (serve f0 (get (bytesEq [49, 50, 45]) [])).status = 416 ∧
     (serve f0 (get (bytesEq [49, 50, 45]) [])).contentRange = .unsat 12 := by decide +kernel
-/-- HEAD with a malformed Range is 416 while GET is 400 (the excluded case of `c30_head_same`) -/
-example : (serve f0 { get (bytesEq [53, 45, 50]) [] with head := true }).status = 416 ∧
-    (serve f0 (get (bytesEq [53, 45, 50]) [])).status = 400 := by decide +kernel
+/-- Before "HEAD rejects a malformed Range header like GET does": HEAD `bytes=0-3,x` answered 416 although the
+range 0-3 overlaps the file (GET: 400); HEAD `bytes=99-x,0-3` even answered 206 -/
+theorem c30_unfixed_head_malformed_counterexample :
+    (serveWith true false f0 { get (bytesEq [48, 45, 51, 44, 120]) [] with head := true }).status = 416 ∧
+    (serveWith true false f0 (get (bytesEq [48, 45, 51, 44, 120]) [])).status = 400 ∧
+    (serveWith true false f0 { get (bytesEq [57, 57, 45, 120, 44, 48, 45, 51]) [] with head := true }).status = 206 := by
+  decide +kernel
+example : (serve f0 { get (bytesEq [48, 45, 51, 44, 120]) [] with head := true }).status = 400 := by decide +kernel
 /-- matching If-Range keeps the range; `If-None-Match: "c"` gives 304 -/
 example : (serve f0 (get (bytesEq [50, 45, 53]) [34, 99, 34])).status = 206 ∧
     (serve f0 (get (bytesEq [50, 45, 53]) [34, 99, 34])).body = [50, 51, 52, 53] := by decide +kernel
